@@ -16,6 +16,118 @@ func init() {
 }
 
 func runC37(c *Ctx) {
+	c.R.Rule("A-challenge", "signer and verifier feed the Schnorr challenge hash the same encoding of R: every call of crypto.getE passes as its r argument the fixed-width encoding intToByte(x) (the verifier always hashes the 32-byte form taken from the signature)")
+	{
+		nE := 0
+		for _, f := range c.pkgFuncs("crypto") {
+			for _, call := range ssau.CallsIn(f, callPred(R{"crypto", "", "getE"})) {
+				nE++
+				a := call.Common().Args
+				ok := len(a) == 4 && ssau.IsCallTo(ssau.Unwrap(a[2]), callPred(R{"crypto", "", "intToByte"}))
+				c.R.Check("A-challenge", "getE r argument|"+fname(f), ok, c.posOf(call), "the r argument of the challenge hash must be intToByte(R.x) (32 bytes, zero padded) in the signer and in the verifier alike")
+			}
+		}
+		c.R.FloorCheck("A-challenge getE call sites", nE, 2)
+	}
+	// comparator of a sort.Slice: indexes only the slice that is being sorted
+	c.R.Rule("A-sortkeys", "a comparator passed to sort.Slice / sort.SliceStable in the node indexes, with its two position arguments, only the slice that is being sorted (keys kept in a parallel slice go stale after the first swap, leaving the result in an arbitrary order); blockchain.SortPrograms, on which the pairing of program hashes and programs relies, is such a sort or a sort.Sort over the programs themselves")
+	{
+		nS := 0
+		for f := range c.P.AllFuncs() {
+			root := f
+			for root.Parent() != nil {
+				root = root.Parent()
+			}
+			if !nodeFunc(root) || len(f.Blocks) == 0 {
+				continue
+			}
+			for _, call := range ssau.CallsIn(f, func(cm *ssa.CallCommon) bool {
+				g := cm.StaticCallee()
+				return g != nil && (g.String() == "sort.Slice" || g.String() == "sort.SliceStable")
+			}) {
+				a := call.Common().Args
+				mc, ok := a[1].(*ssa.MakeClosure)
+				if !ok {
+					continue
+				}
+				less, ok := mc.Fn.(*ssa.Function)
+				if !ok || len(less.Params) != 2 {
+					continue
+				}
+				nS++
+				sorted := ssau.Unwrap(a[0])
+				if mi, isMI := sorted.(*ssa.MakeInterface); isMI {
+					sorted = ssau.Unwrap(mi.X)
+				}
+				// the sorted slice and the indexed slice are the same variable: either the very same SSA value, or loads
+				// of the same variable cell (the closure sees the variable through its captured cell), or the same
+				// field path
+				cellOf := func(v ssa.Value) ssa.Value {
+					if ld, isLd := v.(*ssa.UnOp); isLd && ld.Op == token.MUL {
+						if al, isAl := ld.X.(*ssa.Alloc); isAl {
+							return al
+						}
+						if fv, isFV := ld.X.(*ssa.FreeVar); isFV {
+							for k, x := range less.FreeVars {
+								if x == fv && k < len(mc.Bindings) {
+									return mc.Bindings[k]
+								}
+							}
+						}
+					}
+					if fv, isFV := v.(*ssa.FreeVar); isFV {
+						for k, x := range less.FreeVars {
+							if x == fv && k < len(mc.Bindings) {
+								return mc.Bindings[k]
+							}
+						}
+					}
+					return nil
+				}
+				rawSorted := a[0]
+				if mi, isMI := rawSorted.(*ssa.MakeInterface); isMI {
+					rawSorted = mi.X
+				}
+				same := func(base ssa.Value) bool {
+					if base == rawSorted || ssau.Unwrap(base) == sorted {
+						return true
+					}
+					if cb, cs := cellOf(base), cellOf(rawSorted); cb != nil && cb == cs {
+						return true
+					}
+					// a captured copy of the sorted value itself
+					if cb := cellOf(base); cb != nil && (cb == rawSorted || ssau.Unwrap(cb) == sorted) {
+						return true
+					}
+					sb, ss := ssau.CondString(ssau.Unwrap(base)), ssau.CondString(sorted)
+					return sb == ss && !strings.Contains(sb, "_") && sb != ""
+				}
+				bad := ""
+				for _, b := range less.Blocks {
+					for _, in := range b.Instrs {
+						var base, idx ssa.Value
+						switch x := in.(type) {
+						case *ssa.IndexAddr:
+							base, idx = x.X, x.Index
+						case *ssa.Index:
+							base, idx = x.X, x.Index
+						default:
+							continue
+						}
+						iv := ssau.Unwrap(idx)
+						if iv != ssa.Value(less.Params[0]) && iv != ssa.Value(less.Params[1]) {
+							continue
+						}
+						if !same(base) {
+							bad = c.posOf(in)
+						}
+					}
+				}
+				c.R.Check("A-sortkeys", "comparator|"+fname(root), bad == "", c.posOf(call), "the comparator indexes another slice than the one being sorted with its position arguments at "+bad)
+			}
+		}
+		c.R.Note("A-sortkeys: %d sort.Slice comparators examined", nS)
+	}
 	c.R.Rule("D-message", "the wallet signs, and the node verifies, the same bytes: in account.SignBySigner the message given to crypto.Sign is the content of a buffer written only by txn.SerializeUnsigned; every RunPrograms caller passes the content of a buffer written only by SerializeUnsigned of the checked transaction; the multi-sign helpers append the signature over the same serialization")
 	c.R.Rule("T-mofn", "crypto.CheckMultiSigSignatures lets exactly the scripts with 1 <= m <= n through its parameter check (evaluated on the grid 0..6 x 0..6 by folding the branch conditions), which is the set contract.CreateMultiSigRedeemScript produces")
 	c.R.Rule("B-sentinel", "a result of strings.Index / bytes.Index (and the IndexByte/LastIndex variants) that the function compares with -1 somewhere is not used in arithmetic or as a slice bound on a path that has not passed that comparison (address and amount parsers of the node)")
